@@ -15,6 +15,8 @@ CONSTANTS
   GuardedConn = TRUE
   PerCycleWG = TRUE
   SubscribeMayFail = FALSE
+  StartMayFail = FALSE
+  ResetOnFailedStart = TRUE
   Script <- MCScriptB
 VIEW view
 INVARIANTS MutualExclusion FifoPrefix AtMostOnce ExactlyOnce NoPanic AfterShutdown NoLateStart Accounted
